@@ -35,6 +35,18 @@ CHECKS = {
         "sequential consistency (weak-memory effects are left to the -race pass). Overlay instrumentation is generated from /repo at check time.",
    technique="explicit-state BFS + stateless schedule enumeration (controlled scheduler) with brute-force linearizability oracle",
    design_ref="4/C16"),
+ "C17": dict(level="model_checking", engine="E1 sched",
+   text="Stateless exploration of the real traversal.BreadthFirst and channels.BufferedPipe under a controlled scheduler: goroutines, channels, select, "
+        "context cancellation, WaitGroup, mutex and atomics of traversal/, util/channels, util/ are rewritten at build time onto scheduler shims, every select "
+        "choice and rendezvous is a branch point. Pipe scenarios (0..2/3 values, slow reader, concurrent cancel) are explored over every interleaving; BreadthFirst "
+        "scenarios (tree/DAG/cyclic drivers with up to 6 paths, 1..3 workers, fault plans: driver error at each path, memory limit, parent-context cancel) up to a "
+        "preemption bound, with happens-before-hash state caching. Oracle: expanded paths = sequential expansion exactly once, returns, injected error comes back, "
+        "no deadlock / goroutine left parked / panic. Plus a free-running -race pass.",
+   note="Trusted: fidelity of the channel/select/context shims to Go semantics (CSP rendezvous, close, nil channels); state caching is sound for data-race-free code "
+        "(partial-order equivalence); preemption bounds as stated per scenario in the evidence. The sequential helpers of ops/ (Traversal, TraversePaths, Acyclic*) "
+        "are not yet covered by this check.",
+   technique="stateless model checking of the implementation (controlled scheduler, preemption bounding, happens-before state caching)",
+   design_ref="4/C17"),
 }
 
 NOT_YET = "checker not built yet in this session (planned, see DESIGN.md section 4); not claimed until it runs clean"
